@@ -793,3 +793,25 @@ fn exec_par_with_checkpointing<T: 'static + Send + Sync + Clone>(
 
     result
 }
+
+/// Direct access to the two engines on an explicit chain, for the verification harness.
+#[cfg(feature = "verif-hooks")]
+pub mod verif {
+    use crate::node::Node;
+    use anyhow::Result;
+
+    /// `exec_seq` on an explicit chain.
+    ///
+    /// # Errors
+    /// As `exec_seq`.
+    pub fn exec_seq<T: 'static + Send + Sync + Clone>(chain: Vec<Node>) -> Result<Vec<T>> {
+        super::exec_seq::<T>(chain)
+    }
+    /// `exec_par` on an explicit chain.
+    ///
+    /// # Errors
+    /// As `exec_par`.
+    pub fn exec_par<T: 'static + Send + Sync + Clone>(chain: &[Node], partitions: usize) -> Result<Vec<T>> {
+        super::exec_par::<T>(chain, partitions)
+    }
+}
